@@ -160,6 +160,7 @@ func (dw *DiskWriter) HandleChange(kind ChangeKind, p string, fi os.FileInfo, er
 	}
 
 	isRegularFile := false
+	isHardlink := false
 
 	switch {
 	case fi.IsDir():
@@ -183,6 +184,7 @@ func (dw *DiskWriter) HandleChange(kind ChangeKind, p string, fi os.FileInfo, er
 		if err := os.Link(filepath.Join(dw.dest, statCopy.Linkname), newPath); err != nil {
 			return errors.Wrapf(err, "failed to link %s to %s", newPath, statCopy.Linkname)
 		}
+		isHardlink = true
 	default:
 		isRegularFile = true
 		file, err := os.OpenFile(newPath, os.O_CREATE|os.O_WRONLY, fi.Mode())
@@ -200,8 +202,13 @@ func (dw *DiskWriter) HandleChange(kind ChangeKind, p string, fi os.FileInfo, er
 		}
 	}
 
-	if err := rewriteMetadata(newPath, statCopy); err != nil {
-		return errors.Wrapf(err, "error setting metadata for %s", newPath)
+	// a hard link shares the inode, and with it the metadata, of the file it
+	// names: that file got its metadata from its own change and may have other
+	// names the sender must not be able to re-stamp
+	if !isHardlink {
+		if err := rewriteMetadata(newPath, statCopy); err != nil {
+			return errors.Wrapf(err, "error setting metadata for %s", newPath)
+		}
 	}
 
 	if rename {
